@@ -93,6 +93,9 @@ def explore(tier, seed):
     chunks = [("cfg", part) for part in pool.split(pts, pool.NPROC * 6)]
     fault_pts = [p for p in pts if p["cli"] == (None, None, None) and p["hooks"] == ("ok", "ok") and p["variant"] == "plain"]
     chunks += [("fault", part) for part in pool.split(fault_pts, pool.NPROC * 2)]
+    conf = [p for p in pts if p["kind"] == "git" and p["variant"] == "plain" and p["cli"] == (None, None, None) and p["tagmsg"] == "set"
+            and not p["allow_dirty"] and p["hooks"] in (("ok", "ok"), ("fails", "ok"), ("absent", "absent"))]
+    chunks += [("seam", part) for part in pool.split(conf, 16)]
     return pool.run_chunks(run_chunk, chunks)
 
 
@@ -299,6 +302,45 @@ def _enabled(p):
     return "".join(ch for ch, on in zip("ctp", (c, t, pu)) if on) or "none"
 
 
+def seam_conformance(st, p, base):
+    """The same configuration point served (a) by the in-process fake and (b) by fake executables first on PATH:
+    the issued command traces must be identical, otherwise the seam does not see every child process."""
+    o1, fake, files, _after = execute(p)
+    want = []
+    for e in fake.log:
+        if e["type"] == "hook":
+            want.append(["HOOK", os.path.basename(e["path"]), e["env"].get("BUMPVER_OLD_VERSION"), e["env"].get("BUMPVER_NEW_VERSION")])
+        else:
+            want.append(e["argv"])
+    fake_dir, bin_dir = os.path.join(base, "fake"), os.path.join(base, "bin")
+    world.clear_dir(".")
+    world.write_tree(files)
+    os.mkdir(".git")
+    fakevcs.path_fake_setup(fake_dir, bin_dir, tags_all=["1.2.1", "0.9.0"], status=STATUS[p["tree"]], remote=p["remote"])
+    for name, mode in zip(("pre.sh", "post.sh"), p["hooks"]):
+        if mode != "absent":
+            fakevcs.path_fake_hook(name, 0 if mode == "ok" else 3)
+    old_path, old_fd = os.environ.get("PATH", ""), os.environ.get("FAKE_DIR")
+    os.environ["PATH"] = bin_dir + os.pathsep + old_path
+    os.environ["FAKE_DIR"] = fake_dir
+    try:
+        o2 = world.cli(*args_of(p))
+    finally:
+        os.environ["PATH"] = old_path
+        if old_fd is None:
+            os.environ.pop("FAKE_DIR", None)
+        else:
+            os.environ["FAKE_DIR"] = old_fd
+    got = fakevcs.path_fake_trace(fake_dir)
+    st.evaluations += 2
+    st.observe((sorted((k, str(v)) for k, v in p.items()), o1.exit, o2.exit, got))
+    if got != want or (o1.exit == 0) != (o2.exit == 0):
+        raise pool.HarnessError(
+            "seam conformance failed: child processes seen through PATH differ from those seen through bumpver.vcs.sp/bumpver.hooks.sp "
+            f"for {args_of(p)}: path={got} seam={want} exits={o2.exit}/{o1.exit}")
+    st.outcomes["seam-conformance:identical-traces"] += 1
+
+
 def run_chunk(chunk):
     import datetime as dt
 
@@ -307,6 +349,12 @@ def run_chunk(chunk):
     world.set_today(dt.date(2033, 3, 3))
     d = pool.fresh_dir("c10")
     os.chdir(d)
+    if kind == "seam":
+        base = pool.fresh_dir("c10seam")
+        for p in pts:
+            seam_conformance(st, p, base)
+        os.chdir("/")
+        return st
     for p in pts:
         if kind == "cfg":
             o, fake, files, after = execute(p)
